@@ -59,6 +59,21 @@ static int r_ab(int argc, char **argv, char *, int)
     record(1, argc, argv);
     return 41;
 }
+static int m_c300(int argc, char **argv)
+{
+    record(2, argc, argv);
+    return 42;
+}
+static int r_c300(int argc, char **argv, char *, int)
+{
+    record(2, argc, argv);
+    return 42;
+}
+static const std::string NAME300(300, 'c'); // a 300-character command name, only in the tables of the long sub-checks
+static const struct mshell_command ML_BOTH[] = {{"a", m_a, "first"}, {"ab", m_ab, nullptr}, {NAME300.c_str(), m_c300, nullptr}, {nullptr, nullptr, nullptr}};
+static const struct mshell_command ML_T2[] = {{"ab", m_ab, nullptr}, {NAME300.c_str(), m_c300, "long"}, {nullptr, nullptr, nullptr}};
+static const struct rshell_command RL_BOTH[] = {{"a", r_a, "first"}, {"ab", r_ab, nullptr}, {NAME300.c_str(), r_c300, nullptr}, {nullptr, nullptr, nullptr}};
+static const struct rshell_command RL_T2[] = {{"ab", r_ab, nullptr}, {NAME300.c_str(), r_c300, "long"}, {nullptr, nullptr, nullptr}};
 static const struct mshell_command M_BOTH[] = {{"a", m_a, "first"}, {"ab", m_ab, nullptr}, {nullptr, nullptr, nullptr}};
 static const struct mshell_command M_T1[] = {{"a", m_a, "first"}, {nullptr, nullptr, nullptr}};
 static const struct mshell_command M_T2[] = {{"ab", m_ab, nullptr}, {nullptr, nullptr, nullptr}};
@@ -67,6 +82,8 @@ static const struct rshell_command R_BOTH[] = {{"a", r_a, "first"}, {"ab", r_ab,
 static const struct rshell_command R_T1[] = {{"a", r_a, "first"}, {nullptr, nullptr, nullptr}};
 static const struct rshell_command R_T2[] = {{"ab", r_ab, nullptr}, {nullptr, nullptr, nullptr}};
 static const struct rshell_command_table R_TABLES[] = {{R_T1, 0}, {R_T2, 1}, {nullptr, 0}}; // second table drops argv[0]
+static const struct mshell_command *const ML_TABLES[] = {M_T1, ML_T2, nullptr};
+static const struct rshell_command_table RL_TABLES[] = {{R_T1, 0}, {RL_T2, 1}, {nullptr, 0}};
 
 // ---------------------------------------------------------------- reference for one line
 struct LineRef
@@ -76,7 +93,7 @@ struct LineRef
     int ntok;  // words the dispatcher may pass on (<= 10)
     int which; // command named by the first word, -1 none
 };
-static LineRef line_ref(const Str &s)
+static LineRef line_ref(const Str &s, bool longtab = false)
 {
     LineRef r;
     r.runs = ref_runs(s, s.size(), is_ws4);
@@ -86,52 +103,55 @@ static LineRef line_ref(const Str &s)
     r.which = -1;
     if (r.ntok > 0)
         r.which = r.toks[0] == "a" ? 0 : r.toks[0] == "ab" ? 1 : -1;
+    if (r.ntok > 0 && longtab && r.toks[0] == NAME300)
+        r.which = 2;
     return r;
 }
 
 // after a dispatcher returned: exactly the right handler ran, once, with the reference argv
-static void check_dispatch(const char *fn, const Str &s, const LineRef &ref, int drop, int rc)
+static void check_dispatch(const char *fn, const Str &s, const LineRef &ref, int drop, int rc, const char *suffix = "")
 {
     mc::outcome(mc::fmt("%s calls=%zu which=%d rc=%d", fn, g_calls.size(), g_calls.empty() ? -1 : g_calls[0].which, rc != 0));
     Str sig = Str("C19.") + fn;
     if (ref.which < 0)
     {
         if (!g_calls.empty())
-            mc::violation(sig + ".handler_called_without_command", "%s(%s): handler %d ran, first word %s names no command", fn,
-                          esc(s).c_str(), g_calls[0].which, ref.ntok ? esc(ref.toks[0]).c_str() : "(none)");
+            mc::violation(sig + ".handler_called_without_command" + suffix, "%s(%s): handler %d ran, first word %s names no command", fn,
+                          escb(s).c_str(), g_calls[0].which, ref.ntok ? escb(ref.toks[0]).c_str() : "(none)");
         return;
     }
     if (g_calls.size() != 1)
     {
-        mc::violation(sig + ".handler_not_called", "%s(%s): %zu handler calls, first word %s names command %d", fn,
-                      esc(s).c_str(), g_calls.size(), esc(ref.toks[0]).c_str(), ref.which);
+        mc::violation(sig + ".handler_not_called" + suffix, "%s(%s): %zu handler calls, first word %s names command %d", fn,
+                      escb(s).c_str(), g_calls.size(), escb(ref.toks[0]).c_str(), ref.which);
         return;
     }
     const Call &c = g_calls[0];
     if (c.which != ref.which)
-        mc::violation(sig + ".wrong_handler", "%s(%s): handler %d ran, want %d", fn, esc(s).c_str(), c.which, ref.which);
+        mc::violation(sig + ".wrong_handler" + suffix, "%s(%s): handler %d ran, want %d", fn, escb(s).c_str(), c.which, ref.which);
     if (c.argc + drop > SHELL_ARGCMAX)
-        mc::violation(sig + ".argc_exceeds_max", "%s(%s): handler got argc=%d (+%d dropped)", fn, esc(s).c_str(), c.argc, drop);
+        mc::violation(sig + ".argc_exceeds_max" + suffix, "%s(%s): handler got argc=%d (+%d dropped)", fn, escb(s).c_str(), c.argc, drop);
     Toks want(ref.toks.begin() + drop, ref.toks.begin() + ref.ntok);
     if (c.argc != (int)want.size() || c.argv != want)
-        mc::violation(sig + ".argv", "%s(%s): handler got argc=%d argv=%s, want argc=%zu argv=%s", fn, esc(s).c_str(), c.argc,
-                      esc(c.argv).c_str(), want.size(), esc(want).c_str());
+        mc::violation(sig + ".argv" + suffix, "%s(%s): handler got argc=%d argv=%s, want argc=%zu argv=%s", fn, escb(s).c_str(), c.argc,
+                      escb(c.argv).c_str(), want.size(), escb(want).c_str());
     else
         for (size_t i = 0; i < want.size(); i++)
             if (c.off[i] != (long)ref.runs[i + drop].off)
-                mc::violation(sig + ".argv", "%s(%s): argv[%zu] points at offset %ld, want %zu", fn, esc(s).c_str(), i, c.off[i],
+                mc::violation(sig + ".argv" + suffix, "%s(%s): argv[%zu] points at offset %ld, want %zu", fn, escb(s).c_str(), i, c.off[i],
                               ref.runs[i + drop].off);
 }
 
-static void ctx(const char *fn, const LineRef &ref, const Str &s)
+static void ctx(const char *fn, const LineRef &ref, const Str &s, const char *suffix)
 {
     // a blank line is non-empty and has no word
-    mc::crash_context("C19.%s.memory%s", fn, (ref.runs.empty() && !s.empty()) ? ".blank_line" : "");
+    mc::crash_context("C19.%s.memory%s%s", fn, (ref.runs.empty() && !s.empty()) ? ".blank_line" : "", suffix);
 }
 
-static void check_shells(const Str &s, int which_family)
+static void check_shells(const Str &s, int which_family, bool longtab = false)
 {
-    LineRef ref = line_ref(s);
+    LineRef ref = line_ref(s, longtab);
+    const char *sfx = longtab ? ".long_input" : "";
     if (which_family == 0)
     {
         {
@@ -139,20 +159,20 @@ static void check_shells(const Str &s, int which_family)
             g_calls.clear();
             g_line = b.p;
             int ret = -7;
-            ctx("mshell_execute", ref, s);
-            int rc = mshell_execute(b.p, M_BOTH, &ret);
+            ctx("mshell_execute", ref, s, sfx);
+            int rc = mshell_execute(b.p, longtab ? ML_BOTH : M_BOTH, &ret);
             mc::crash_context("C19.harness");
-            check_dispatch("mshell_execute", s, ref, 0, rc);
+            check_dispatch("mshell_execute", s, ref, 0, rc, sfx);
         }
         {
             CS b(s);
             g_calls.clear();
             g_line = b.p;
             int ret = -7;
-            ctx("mshell_tables_execute", ref, s);
-            int rc = mshell_tables_execute(b.p, M_TABLES, &ret);
+            ctx("mshell_tables_execute", ref, s, sfx);
+            int rc = mshell_tables_execute(b.p, longtab ? ML_TABLES : M_TABLES, &ret);
             mc::crash_context("C19.harness");
-            check_dispatch("mshell_tables_execute", s, ref, 0, rc);
+            check_dispatch("mshell_tables_execute", s, ref, 0, rc, sfx);
         }
     }
     else
@@ -163,10 +183,10 @@ static void check_shells(const Str &s, int which_family)
             g_calls.clear();
             g_line = b.p;
             int ret = -7;
-            ctx("rshell_execute", ref, s);
-            int rc = rshell_execute(b.p, R_BOTH, &ret, 0, out.p, (int)out.n);
+            ctx("rshell_execute", ref, s, sfx);
+            int rc = rshell_execute(b.p, longtab ? RL_BOTH : R_BOTH, &ret, 0, out.p, (int)out.n);
             mc::crash_context("C19.harness");
-            check_dispatch("rshell_execute", s, ref, 0, rc);
+            check_dispatch("rshell_execute", s, ref, 0, rc, sfx);
         }
         {
             CS b(s);
@@ -174,52 +194,74 @@ static void check_shells(const Str &s, int which_family)
             g_calls.clear();
             g_line = b.p;
             int ret = -7;
-            ctx("rshell_tables_execute", ref, s);
-            int rc = rshell_tables_execute(b.p, R_TABLES, &ret, out.p, (int)out.n);
+            ctx("rshell_tables_execute", ref, s, sfx);
+            int rc = rshell_tables_execute(b.p, longtab ? RL_TABLES : R_TABLES, &ret, out.p, (int)out.n);
             mc::crash_context("C19.harness");
-            check_dispatch("rshell_tables_execute", s, ref, ref.which == 1 ? 1 : 0, rc);
+            check_dispatch("rshell_tables_execute", s, ref, ref.which >= 1 ? 1 : 0, rc, sfx); // second table drops argv[0]
         }
     }
 }
 
 // argvc_internal_split on a terminated line with exactly argcmax argv slots
-static void check_argvc_split(const Str &s)
+static void check_argvc_split(const Str &s, const std::vector<int> &maxs = {0, 1, 2, 10}, const char *sfx = "")
 {
     std::vector<Run> runs = ref_runs(s, s.size(), is_ws4);
-    static const int MAXS[4] = {0, 1, 2, 10};
-    for (int k = 0; k < 4; k++)
+    for (int argcmax : maxs)
     {
-        int argcmax = MAXS[k];
         int want = (int)std::min<size_t>(runs.size(), (size_t)argcmax);
         if ((int)runs.size() > argcmax)
             mc::nontrivial();
         CS b(s);
         Exact av((size_t)argcmax * sizeof(char *), 1, 0);
         char **argv = (char **)av.p;
-        mc::crash_context("C19.argvc_split.memory");
+        mc::crash_context("C19.argvc_split.memory%s", sfx);
         int argc = w_argvc_split(b.p, argv, argcmax);
         mc::crash_context("C19.harness");
         mc::outcome(mc::fmt("argvc_split argc=%d", argc));
         if (argc > argcmax)
-            mc::violation("C19.argvc_split.argc_exceeds_max", "split(%s, argcmax=%d) returned %d", esc(s).c_str(), argcmax, argc);
+            mc::violation(Str("C19.argvc_split.argc_exceeds_max") + sfx, "split(%s, argcmax=%d) returned %d", escb(s).c_str(), argcmax, argc);
         else if (argc != want)
-            mc::violation("C19.argvc_split.argc", "split(%s, argcmax=%d) returned %d, want %d", esc(s).c_str(), argcmax, argc, want);
+            mc::violation(Str("C19.argvc_split.argc") + sfx, "split(%s, argcmax=%d) returned %d, want %d", escb(s).c_str(), argcmax, argc, want);
         for (int i = 0; i < argc && i < want; i++)
         {
             long off = argv[i] - b.p;
             if (off != (long)runs[i].off)
             {
-                mc::violation("C19.argvc_split.argv", "split(%s, argcmax=%d): argv[%d] at offset %ld, want %zu", esc(s).c_str(),
+                mc::violation(Str("C19.argvc_split.argv") + sfx, "split(%s, argcmax=%d): argv[%d] at offset %ld, want %zu", escb(s).c_str(),
                               argcmax, i, off, runs[i].off);
-                continue;
+                break;
             }
             Str got(argv[i]), w = s.substr(runs[i].off, runs[i].len);
             if (got != w)
-                mc::violation("C19.argvc_split.argv", "split(%s, argcmax=%d): argv[%d] = %s, want %s", esc(s).c_str(), argcmax, i,
-                              esc(got).c_str(), esc(w).c_str());
+            {
+                mc::violation(Str("C19.argvc_split.argv") + sfx, "split(%s, argcmax=%d): argv[%d] = %s, want %s", escb(s).c_str(), argcmax, i,
+                              escb(got).c_str(), escb(w).c_str());
+                break;
+            }
         }
     }
-    mc::more_cases(3);
+    mc::more_cases(maxs.size() - 1);
+}
+// the same line, not terminated, through argvc_internal_split_n (argc only; argv is checked in c19_text/c19_long)
+static void check_split_n_argc(const Str &s, const std::vector<int> &maxs, const char *sfx)
+{
+    std::vector<Run> runs = ref_runs(s, s.size(), is_ws4);
+    for (int argcmax : maxs)
+    {
+        PL b(s);
+        Exact av((size_t)argcmax * sizeof(char *), 1, 0);
+        mc::crash_context("C19.argvc_split_n.memory%s", sfx);
+        int argc = w_argvc_split_n(b.p, (int)b.n, (char **)av.p, argcmax);
+        mc::crash_context("C19.harness");
+        int want = (int)std::min<size_t>(runs.size(), (size_t)argcmax);
+        if (argc > argcmax)
+            mc::violation(Str("C19.argvc_split_n.argc_exceeds_max") + sfx, "split_n(%s, argcmax=%d) returned %d", escb(s).c_str(), argcmax,
+                          argc);
+        else if (argc != want)
+            mc::violation(Str("C19.argvc_split_n.argc") + sfx, "split_n(%s, argcmax=%d) returned %d, want %d", escb(s).c_str(), argcmax,
+                          argc, want);
+    }
+    mc::more_cases(maxs.size());
 }
 
 MC_INIT
@@ -270,25 +312,51 @@ MC_INIT
         check_argvc_split(s);
         check_shells(s, 0);
         check_shells(s, 1);
-        // the same line, not terminated, through split_n
-        std::vector<Run> runs = ref_runs(s, s.size(), is_ws4);
-        static const int MAXS[4] = {0, 1, 2, 10};
-        for (int m = 0; m < 4; m++)
+        check_split_n_argc(s, {0, 1, 2, 10}, "");
+        mc::more_cases(4);
+    });
+
+    // ---------------------------------------------------------------- long lines (see c19_long.cpp for the rationale)
+    mc::add_check("long_lines", [] {
+        int v = 0;
+        Str s = long_input(' ', "long terminated line through argvc_internal_split and the four dispatchers (tables a, ab, c^300)", &v);
+        if (s.size() > 255)
+            mc::nontrivial();
+        std::vector<int> maxs = {10, 255, 256, 1000};
+        if (s.size() > 65000)
+            maxs.push_back(40000);
+        for (int rep = 0; rep < 2; rep++)
         {
-            int argcmax = MAXS[m];
-            PL b(s);
-            Exact av((size_t)argcmax * sizeof(char *), 1, 0);
-            mc::crash_context("C19.argvc_split_n.memory");
-            int argc = w_argvc_split_n(b.p, (int)b.n, (char **)av.p, argcmax);
-            mc::crash_context("C19.harness");
-            int want = (int)std::min<size_t>(runs.size(), (size_t)argcmax);
-            if (argc > argcmax)
-                mc::violation("C19.argvc_split_n.argc_exceeds_max", "split_n(%s, argcmax=%d) returned %d", esc(s).c_str(), argcmax,
-                              argc);
-            else if (argc != want)
-                mc::violation("C19.argvc_split_n.argc", "split_n(%s, argcmax=%d) returned %d, want %d", esc(s).c_str(), argcmax,
-                              argc, want);
+            check_argvc_split(s, maxs, ".long_input");
+            check_shells(s, 0, true);
+            check_shells(s, 1, true);
+            for (size_t i = 0; i < s.size(); i++) // second pass: tab / CR LF instead of the blank
+                if (s[i] == ' ')
+                    s[i] = "\t\r\n"[i % 3];
         }
-        mc::more_cases(11);
+        mc::more_cases(7, 7);
+    });
+
+    // 255..1000 one-letter words behind a first word that is a, ab, b or the 300-character command
+    mc::add_check("long_words", [] {
+        static const int COUNTS[5] = {255, 256, 257, 300, 1000};
+        static const char *SEP[3] = {" ", "\t", "\r\n"};
+        int u = mc::choose(5 * 3 * 4 * 2);
+        int n = COUNTS[u % 5], sp = (u / 5) % 3, f = (u / 15) % 4, lead = u / 60;
+        Str s = lead ? " " : "";
+        s += f == 0 ? "a" : f == 1 ? "ab" : f == 2 ? "b" : NAME300;
+        for (int i = 1; i < n; i++)
+        {
+            s += SEP[sp];
+            s.push_back("ab"[i % 2]);
+        }
+        mc::describe("%d words (first %s, then one-letter words), separator %s, argcmax {10,255,256,1000}", n,
+                     f == 3 ? "c^300" : f == 0 ? "a" : f == 1 ? "ab" : "b", esc(SEP[sp]).c_str());
+        mc::nontrivial();
+        check_argvc_split(s, {10, 255, 256, 1000}, ".long_input");
+        check_split_n_argc(s, {10, 255, 256, 1000}, ".long_input");
+        check_shells(s, 0, true);
+        check_shells(s, 1, true);
+        mc::more_cases(4, 4);
     });
 }
